@@ -14,12 +14,12 @@ MODULES = {
     # growth beyond the listed properties (statements in growth.jsonl; not registered in MANIFEST.json)
     'G01': 'g01_headersync', 'G02': 'g02_dhtpeer', 'G03': 'g03_reflector', 'G04': 'g04_downloader',
     'G05': 'g05_storage', 'G06': 'g06_walletmerge', 'G07': 'g07_rangestream', 'G08': 'g08_components',
-    'G09': 'g09_lrucache', 'G10': 'g10_jsonrpc', 'G11': 'g11_streamlife',
+    'G09': 'g09_lrucache', 'G10': 'g10_jsonrpc', 'G11': 'g11_streamlife', 'G12': 'g12_spending',
 }
 
 if __name__ == '__main__':
     if len(sys.argv) < 2 or sys.argv[1] not in MODULES:
-        print('usage: check <C01..C20|G01..G11> [--tier quick|thorough] [--replay PATH] [--seed N]')
+        print('usage: check <C01..C20|G01..G12> [--tier quick|thorough] [--replay PATH] [--seed N]')
         sys.exit(2)
     prop = sys.argv[1]
     try:
